@@ -39,6 +39,9 @@ pub enum Kind {
     Template(Vec<Seg>),
     /// any text grammar (must never allow special tokens)
     Text(GrammarSpec),
+    /// `start: "<lit>" ( <ref> | "<txt>" ) "<tail>"` under a *canonical* tokenizer that has tokens gluing `lit` to the
+    /// beginning of `txt`: the literal is held back for token healing while the mask is computed
+    Alt { lit: String, r: RefSpec, txt: String, tail: String },
 }
 
 #[derive(Clone, Debug, Serialize, Deserialize)]
@@ -142,6 +145,78 @@ fn is_markerish(vocab: &Vocab, t: u32) -> bool {
     b.is_empty() || b[0] == 0xFF
 }
 
+/// Canonical tokenizer, literal followed by (token reference | text): a special / marker token may be in the mask
+/// only if committing it succeeds (C01's clause, for the tokens this property is about), and never before the
+/// literal's bytes have been emitted.
+fn run_alt(case: &Case, lit: &str, r: &RefSpec, txt: &str, tail: &str, ctx: &mut Ctx) -> R {
+    let mut vs = case.vocab.clone();
+    vs.canonical = true;
+    for k in 1..=txt.len() {
+        if txt.is_char_boundary(k) {
+            vs.extra.push(B(format!("{}{}", lit, &txt[..k]).into_bytes()));
+        }
+    }
+    let vocab = match vs.build() {
+        Ok(v) => v,
+        Err(_) => return Ok(()),
+    };
+    let n = vocab.len();
+    let rtxt = match render_ref(r, &vocab) {
+        Some(t) => t,
+        None => return Ok(()),
+    };
+    let q = |x: &str| serde_json::to_string(x).unwrap();
+    let g = GrammarSpec::Lark(format!("start: {} ( {} | {} ) {}\n", q(lit), rtxt, q(txt), q(tail)));
+    let f = factory(&vocab);
+    let mut m = matcher(&f, &g);
+    if m.is_error() {
+        ctx.class("compile_error");
+        return Ok(());
+    }
+    ctx.class("alt_after_literal(canonical)");
+    let gtxt = g.text();
+    let mut toks: Vec<u32> = vec![];
+    let mut emitted: Vec<u8> = vec![];
+    for st in &case.walk {
+        if m.is_stopped() {
+            break;
+        }
+        let mask = match m.compute_mask() {
+            Ok(x) => x,
+            Err(_) => break,
+        };
+        for t in 0..n as u32 {
+            if !is_markerish(&vocab, t) || vocab.is_eos(t) || !mask.is_allowed(t) {
+                continue;
+            }
+            ctx.eval(1);
+            ctx.nontrivial(Fnv::new().str(&gtxt).u64(t as u64).u64(toks.len() as u64).finish());
+            let c = m.deep_clone().consume_token(t);
+            if emitted.len() < lit.len() || c.is_err() {
+                return ctx.fail("C19/special-token-in-mask-before-its-position", || {
+                    format!("grammar {} after tokens {:?} (text {:?}): special token {} {:?} is in the mask; commit: {:?}", gtxt, toks, esc(&emitted), t, esc(vocab.bytes(t)), c.err().map(|e| short_err(&e.to_string())))
+                });
+            }
+        }
+        let ids = mask_ids(&mask, n);
+        if ids.is_empty() {
+            break;
+        }
+        let t = ids[frac(st.pick, ids.len())];
+        if m.consume_token(t).is_err() {
+            if m.get_error().is_some_and(|e| is_limit_error(&e)) {
+                return Ok(());
+            }
+            return ctx.fail("C19/mask-token-fails-to-commit", || format!("grammar {} after tokens {:?}: token {} fails to commit", gtxt, toks, t));
+        }
+        toks.push(t);
+        if !is_markerish(&vocab, t) {
+            emitted.extend_from_slice(vocab.bytes(t));
+        }
+    }
+    Ok(())
+}
+
 impl Prop for C19 {
     type Case = Case;
     const ID: &'static str = "C19";
@@ -171,14 +246,26 @@ impl Prop for C19 {
             1 => Just(GrammarSpec::Regex("<\\|tool\\|>|<a>+|<\\[3\\]>".into())),
             1 => Just(GrammarSpec::Lark("%llguidance {\"allow_invalid_utf8\": true}\nstart: /[a-z]+/ \"<a>\"\n".into())),
         ];
+        let refs = prop_oneof![
+            3 => (0usize..SPECIAL_NAMES.len()).prop_map(RefSpec::Name),
+            2 => (250u32..270).prop_map(RefSpec::Id),
+            2 => ranges_strategy().prop_map(RefSpec::Ranges),
+            1 => ranges_strategy().prop_map(RefSpec::NotRanges),
+        ];
+        let alt = (prop_oneof![Just("a"), Just("ab"), Just("x<"), Just("é")], refs, prop_oneof![Just("b"), Just("bc"), Just("|>")], prop_oneof![Just("c"), Just(""), Just("<a>")])
+            .prop_map(|(lit, r, txt, tail)| Kind::Alt { lit: lit.to_string(), r, txt: txt.to_string(), tail: tail.to_string() });
         let kind = prop_oneof![
             3 => proptest::collection::vec(seg_strategy(), 1..6).prop_map(Kind::Template),
             2 => textg.prop_map(Kind::Text),
+            1 => alt,
         ];
         (kind, lookalike_vocab(), steps(24)).prop_map(|(kind, vocab, walk)| Case { kind, vocab, walk }).boxed()
     }
 
     fn run(&self, case: &Case, ctx: &mut Ctx) -> R {
+        if let Kind::Alt { lit, r, txt, tail } = &case.kind {
+            return run_alt(case, lit, r, txt, tail, ctx);
+        }
         let vocab = match case.vocab.build() {
             Ok(v) => v,
             Err(_) => return Ok(()),
@@ -204,6 +291,7 @@ impl Prop for C19 {
         }
 
         let (g, segs): (GrammarSpec, Option<&Vec<Seg>>) = match &case.kind {
+            Kind::Alt { .. } => unreachable!(),
             Kind::Template(segs) => match template_grammar(segs, &vocab) {
                 Some(t) => (GrammarSpec::Lark(t), Some(segs)),
                 None => return Ok(()),
